@@ -43,6 +43,7 @@ STUBS = {
     'lossy': ('alloc::string::String::from_utf8_lossy', 'crate::common::stubs::lossy_stub'),
     'lossy_ascii': ('alloc::string::String::from_utf8_lossy', 'crate::common::stubs::lossy_ascii'),
     'lossy_empty': ('alloc::string::String::from_utf8_lossy', 'crate::common::stubs::lossy_empty'),
+    'lossy_fill': ('alloc::string::String::from_utf8_lossy', 'crate::common::stubs::lossy_fill'),
     'drop_even': ('bytes::bytes::promotable_even_drop', 'crate::common::stubs::drop_noop'),
     'drop_odd': ('bytes::bytes::promotable_odd_drop', 'crate::common::stubs::drop_noop'),
     'bm': ('bytes::BytesMut::new', 'crate::common::stubs::bm_new'),
@@ -52,6 +53,7 @@ STUBS = {
 }
 STUB_TEXT = {
     'lossy': 'String::from_utf8_lossy -> model: identity on ASCII, arbitrary <=3-char ASCII string otherwise',
+    'lossy_fill': 'String::from_utf8_lossy -> a string of the same length, contents irrelevant (raw-bytes acceptance harness)',
     'lossy_empty': 'String::from_utf8_lossy -> always the empty string (totality-only harnesses: the decoded text is not inspected)',
     'lossy_ascii': 'String::from_utf8_lossy -> identity under the assumption that its argument is 7-bit (harness text bytes are assumed 7-bit; non-ASCII text is only covered by the *_raw / C02 harnesses)',
     'drop_even': 'bytes::bytes::promotable_even_drop -> no-op (buffer leaked)',
